@@ -141,7 +141,8 @@ CHECKS = {
     "C10": dict(
         technique="Lean 4 proof: the IP address kernels of the implementation (models of is_ipv4, parse_ipv4 with "
                   "parse_ipv4_number, serializers::ipv4 and ::ipv6) equal the Standard's definitions on every input; IPv4 round "
-                  "trip for all 2^32 and IPv6 round trip for all 2^128 addresses; host-parser well-formedness; host code-point "
+                  "trip for all 2^32 and IPv6 round trip for all 2^128 addresses; parse_host of both types = the Standard's "
+                  "host parser incl. the host kind (IDNA as a parameter); host-parser well-formedness; host code-point "
                   "tables regenerated from the source; kernel models tied to the code call by call; Spec host parsers vs "
                   "implementation on host-centred cases",
         text="Lean 4: Spec/Host.lean transcribes the IPv4/IPv6/host parsers and serializers over Nat. Kernel theorems "
@@ -152,16 +153,22 @@ CHECKS = {
              "kernel_serialize_ipv6 - the serializers incl. longest-zero-run search and :: placement = the Standard's, for "
              "every address (the 256 zero patterns are decided, pieces are symbolic); kernel_parse_ipv6 - parse_ipv6 (hex piece "
              "reader, embedded-IPv4 loop, main loop with its early exits, 45-byte guard, in-place move behind ::) = the "
-             "Standard's IPv6 parser on every input. Spec theorems: ipv4Parse(ipv4Serialize a)=a for every a<2^32, "
+             "Standard's IPv6 parser on every input; parse_host_is_host_parser - url::parse_host and "
+             "url_aggregator::parse_host (opaque hosts, the pure-decimal shortcut, the 'nothing forbidden, no xn-' "
+             "shortcuts - two different texts proved to take the same decisions - and the to_ascii route) fail exactly "
+             "when the Standard's host parser fails, store the serialisation of its host, and host_type is the kind of "
+             "that host (host_kind_truthful); ada::idna::to_ascii is a parameter assumed, at the one domain asked about, "
+             "to give ASCII lower-case output and to lower-case all-ASCII domains without ACE labels. Spec theorems: ipv4Parse(ipv4Serialize a)=a for every a<2^32, "
              "ipv6Parse(ipv6Serialize a)=a for every eight 16-bit pieces, forbidden host/domain tables equal the Standard's "
              "sets, parsed hosts are well-formed. L1: every kernel is called directly (both twins) and compared with the Lean "
              "model on generated texts; the implementation is compared with the Spec on href, host, port, host kind and "
              "has_valid_domain for hosts parsed, inherited and replaced by setters (incl. disguised IPv4 spellings and an "
              "AVX-512 pass), and every produced IP href is re-parsed.",
         design_ref="DESIGN.md §5 C10, §11.3",
-        note="all five kernels are proved equal to the Standard's definitions; what ties them to the C++ is the L1 run; "
-             "the AVX-512 kernels are compared with the scalar ones in C18; host-kind truthfulness and domain processing are "
-             "decided by correspondence."),
+        note="the five kernels and parse_host are proved equal to the Standard's definitions; what ties the models to the "
+             "C++ is the L1 run; the AVX-512 kernels are compared with the scalar ones in C18; domain-to-ASCII itself is a "
+             "parameter of the host theorem (C06/C16 decide it per input; it fails at the known 16384-byte cap); the host "
+             "kind after setters (set_host / set_hostname are not modelled) is decided by correspondence."),
     "C19": dict(
         technique="Lean 4 proof by case analysis over the Spec parser and induction over setter histories; RecInv "
                   "evaluated on the implementation after every operation",
